@@ -20,18 +20,18 @@ type half struct {
 	mu   sync.Mutex
 	cond *sync.Cond
 
-	frames   [][]byte // pending frames (first one may be partially consumed)
-	off      int      // consumed bytes of frames[0]
-	wclosed  bool     // writer closed: EOF after drain
-	rclosed  bool     // reader closed: writes fail
-	werr     error    // injected: reader sees this error after drain instead of EOF
+	frames  [][]byte // pending frames (first one may be partially consumed)
+	off     int      // consumed bytes of frames[0]
+	wclosed bool     // writer closed: EOF after drain
+	rclosed bool     // reader closed: writes fail
+	werr    error    // injected: reader sees this error after drain instead of EOF
 
 	// plan
-	Plan      []int // cyclic per-read max sizes; empty = no limit. <=0 entries mean "no limit"
-	planIdx   int
-	FirstMin  int  // the first read is allowed to return at least this many bytes (if available)
-	Coalesce  bool // a read may span frames
-	reads     int
+	Plan     []int // cyclic per-read max sizes; empty = no limit. <=0 entries mean "no limit"
+	planIdx  int
+	FirstMin int  // the first read is allowed to return at least this many bytes (if available)
+	Coalesce bool // a read may span frames
+	reads    int
 
 	// recording
 	Recorded  [][]byte // every frame as written by the sender (before Filter)
@@ -45,6 +45,7 @@ type half struct {
 
 	rdeadline time.Time
 	rtimer    *time.Timer
+	wdeadline time.Time // writes never block, but an expired write deadline fails them (net.Conn semantics)
 }
 
 func newHalf() *half {
@@ -61,6 +62,9 @@ func (h *half) write(b []byte) (int, error) {
 	}
 	if h.rclosed {
 		return 0, io.ErrClosedPipe
+	}
+	if !h.wdeadline.IsZero() && !time.Now().Before(h.wdeadline) {
+		return 0, os.ErrDeadlineExceeded
 	}
 	cp := append([]byte(nil), b...)
 	h.Recorded = append(h.Recorded, cp)
@@ -149,6 +153,12 @@ func (h *half) closeRead() {
 	h.mu.Unlock()
 }
 
+func (h *half) setWriteDeadline(t time.Time) {
+	h.mu.Lock()
+	h.wdeadline = t
+	h.mu.Unlock()
+}
+
 func (h *half) setReadDeadline(t time.Time) {
 	h.mu.Lock()
 	defer h.mu.Unlock()
@@ -192,10 +202,11 @@ func (c *Conn) LocalAddr() net.Addr         { return addr{} }
 func (c *Conn) RemoteAddr() net.Addr        { return addr{} }
 func (c *Conn) SetDeadline(t time.Time) error {
 	c.rd.setReadDeadline(t)
+	c.wr.setWriteDeadline(t)
 	return nil
 }
 func (c *Conn) SetReadDeadline(t time.Time) error  { c.rd.setReadDeadline(t); return nil }
-func (c *Conn) SetWriteDeadline(t time.Time) error { return nil }
+func (c *Conn) SetWriteDeadline(t time.Time) error { c.wr.setWriteDeadline(t); return nil }
 
 // SetReadPlan controls how the bytes written by the peer are cut up when this end reads them.
 func (c *Conn) SetReadPlan(plan []int, firstMin int, coalesce bool) {
